@@ -79,7 +79,10 @@ func c15Build() *c15Env {
 	p1 := types.NewVar(token.Pos(21), e.pkg, ndIdent("param1", 3), t)
 	r0 := types.NewVar(token.Pos(22), e.pkg, "", t)
 	r1 := types.NewVar(token.Pos(23), e.pkg, "", t)
-	recv := types.NewVar(token.Pos(24), e.pkg, ndIdent("recv", 3), t)
+	// the receiver's type is a named type whose name may or may not be exported (methods of unexported
+	// types reached through an exported constructor are part of a package's API all the same)
+	recvType := types.Type(types.NewPointer(types.NewNamed(types.NewTypeName(token.Pos(25), e.pkg, ndIdent("recv_type", 3), nil), nil, nil)))
+	recv := types.NewVar(token.Pos(24), e.pkg, ndIdent("recv", 3), recvType)
 	sig := types.NewSignatureType(recv, nil, nil, types.NewTuple(p0, p1), types.NewTuple(r0, r1), false)
 	e.fn = types.NewFunc(token.Pos(10), e.pkg, ndIdent("fname", 3), sig)
 	n1 := ndIdent("field1", 3)
@@ -183,6 +186,8 @@ func Harness_C15_FuncKeys() {
 	ndObserveBool("same_repr", s1.Repr == s2.Repr)
 	ndAssert("C15.A1.site_identity_is_injective", ndImplies(s1 == s2, ndAnd(c15SameKey(k1, k2), ndIff(d1, d2))))
 	ndAssert("C15.A1.same_key_same_site", ndImplies(ndAnd(c15SameKey(k1, k2), ndIff(d1, d2)), s1 == s2))
+	// the identity's "exported" bit (which decides whether the verdict is published) is the declaring object's
+	ndAssert("C15.A2.site_is_exported_iff_its_declaring_object_is", ndIff(s1.Exported, token.IsExported(e.fn.Name())))
 }
 
 func Harness_C15_VarKeys() {
